@@ -27,6 +27,16 @@ def parseB (ws : List String) : Option Obs :=
     pure ⟨step, ⟨tokId i, n⟩, h, l, if j == "-" then none else parseRefTok j, 0, 0, ok⟩
   | _ => none
 
+/-- C04 along one burst: an event that announces finality (Irreversible, new-and-irreversible) carries itself as
+    cursor LIB, and a New event that follows such an announcement carries the last block announced -/
+def burstLibOK : Option Ref → List Obs → Bool
+  | _, [] => true
+  | lastFinal, e :: r =>
+    if e.step == .irreversible || e.step == .newIrreversible then e.lib.id == e.ref.id && burstLibOK (some e.ref) r
+    else if e.step == .new then
+      (match lastFinal with | some f => e.lib.id == f.id | none => true) && burstLibOK lastFinal r
+    else burstLibOK lastFinal r
+
 structure St where
   evs : List Obs := []                       -- live events so far
   canon : Option (List Ref) := none          -- last snapshot
@@ -101,6 +111,8 @@ def run (body : List (List String)) : List (String × String) :=
             | none => s
           let s := if burst.all (fun e => e.lib.num ≤ e.ref.num && e.cursorOK && (some e.head.id == head.map (·.id) || head.isNone)) then s
                    else s.fail "C04" s!"burst from {n}: cursor LIB above block, or head is not the hub head"
+          let s := if burstLibOK none burst then s
+                   else s.fail "C04" s!"burst from {n}: a cursor LIB is not the last block announced irreversible"
           s
     | ["op", "forks", n] =>
       let _n := n.toNat?.getD 0
@@ -135,6 +147,8 @@ def run (body : List (List String)) : List (String × String) :=
                  else s.fail "C04" s!"burst from cursor #{idx}: cursor LIB above block, or head is not the hub head"
         let s := if (burst.zip (burst.drop 1)).all (fun (a, b) => a.lib.num ≤ b.lib.num) && burst.all (fun e => e.lib.num ≥ clib.num) then s
                  else s.fail "C04" s!"burst from cursor #{idx}: cursor LIB height decreases along the burst"
+        let s := if burstLibOK none burst then s
+                 else s.fail "C04" s!"burst from cursor #{idx}: a cursor LIB is not the last block announced irreversible"
         if step == .new || step == .undo then
           match at_, live with
           | some a, some lv =>
@@ -163,6 +177,8 @@ def run (body : List (List String)) : List (String × String) :=
         else if burst.all (fun e => e.cursorOK && (e.step == .undo || e.step == .stalled || e.lib.num ≤ e.ref.num) &&
                       (some e.head.id == head.map (·.id) || head.isNone)) then s
         else s.fail "C04" s!"through-cursor burst from {start}: cursor LIB above block, or head is not the hub head"
+      let s := if !ok || burstLibOK none burst then s
+        else s.fail "C04" s!"through-cursor burst from {start}: a cursor LIB is not the last block announced irreversible"
       let liveJ := match s.evs[idx]? with | some e => (e.junction.map (·.num)).getD cblk.num | none => cblk.num
       let junctionNum := ((burst.filterMap (·.junction)).map (·.num)).foldl min (min cblk.num liveJ)
       if !ok || cblk.num < start || junctionNum < start then s else
